@@ -22,7 +22,8 @@ from harness.tlc import MachineryError
 KINDS = ("n", "g", "p")
 MDNAME = {"n": "isotxsMetadata", "g": "gamisoMetadata", "p": "pmatrxMetadata"}
 # model label index -> (armi nuclide name, xs-id suffix).  Two suffixes of one nuclide, fissile and non-fissile nuclides.
-LABELS = {1: ("U235", "AA"), 2: ("U235", "AB"), 3: ("FE56", "AA"), 4: ("PU239", "AB"), 5: ("NA23", "AA"), 6: ("FE56", "AC")}
+LABELS = {1: ("U235", "AA"), 2: ("U235", "AB"), 3: ("FE56", "AA"), 4: ("PU239", "AB"), 5: ("NA23", "AA"), 6: ("FE56", "AC"),
+          7: ("DUMP1", "AA"), 8: ("DUMP1", "AB")}     # 7, 8: dummy nuclides (nuclideBases.DummyNuclideBase), directory merges only
 FISSILE_NAMES = ("U235", "PU239")
 
 # group-structure ids: 1 and 2 have the same number of groups and different energies, 3 has one more group
@@ -79,11 +80,11 @@ def _new_nuc(lib, label):
     return nuc
 
 
-def iso_file_metadata(md, ng, meta, fw_chi, file_label):
+def iso_file_metadata(md, ng, meta, fw_chi, file_label, max_up=0):
     md["label"] = file_label
     md["fileId"] = 1
     md["numGroups"] = ng
-    md["maxUpScatterGroups"] = 0
+    md["maxUpScatterGroups"] = max_up
     md["maxDownScatterGroups"] = ng - 1
     md["maxScatteringOrder"] = 1
     md["fileWideChiFlag"] = 1 if fw_chi is not None else 0
@@ -126,15 +127,12 @@ def fill_iso_nuclide(nuc, kind, name, ng, spec):
         m = spec["scat"].get(attr)
         ords.append(0 if m is None else 1)
         for g in range(ng):
-            jj[g, n] = 1
-            if m is None:
-                jband[g, n] = 1
-            else:
-                # band = in-group plus every lower-index (higher-energy) group down to the first non-zero sender
-                senders = [c for c in range(g + 1) if m[g][c] != 0]
-                jband[g, n] = g + 1 - min(senders) if senders else 1
-                if any(m[g][c] != 0 for c in range(g + 1, ng)):
-                    raise MachineryError("generator: up-scatter entries are not representable with jj = 1")
+            # row g = scattering INTO group g.  The band holds the in-group term and every sender between the first and the
+            # last non-zero one: JBAND = its width, JJ = position of the in-group term counted from the highest sender index
+            # (JJ > 1 <=> groups of lower energy scatter up into g)
+            senders = [g] if m is None else [c for c in range(ng) if m[g][c] != 0 or c == g]
+            jband[g, n] = max(senders) - min(senders) + 1
+            jj[g, n] = max(senders) - g + 1
         if m is not None:
             setattr(xs, attr, sparse.csr_matrix(np.array(m, dtype=float)))
     md["ords"] = np.array(ords)
@@ -376,14 +374,17 @@ def _match(arr, table):
     return -1
 
 
-def sid_of_path(fn):
+def sid_of_path(fn, pathmap=None):
     b = os.path.basename(fn)
     if b.startswith("SRC"):
         return int(b[3:].split("_")[0])
-    return -1
+    return (pathmap or {}).get(fn, -1)
 
 
-def project_library(lib, srcs, nsrc, labels):
+DUMMY_N, DUMMY_PH = -3, -4      # LibraryMergeDir: synthesised neutron data / placeholder gamma, production entry of a dummy
+
+
+def project_library(lib, srcs, nsrc, labels, pathmap=None, dummies=()):
     """Observable content of one library, in the vocabulary of LibraryMerge: integers (ids, 0/1 flags) and sequences of
     integers only; what cannot be named is a negative integer (-1 = matches nothing known / inconsistent)."""
     if not lib.__dict__:
@@ -406,7 +407,7 @@ def project_library(lib, srcs, nsrc, labels):
     for k in KINDS:
         md = getattr(lib, MDNAME[k])
         out["meta"][k] = srcs.meta_id(md, k)
-        out["files"][k] = sorted(sid_of_path(f) for f in md.fileNames)
+        out["files"][k] = sorted(sid_of_path(f, pathmap) for f in md.fileNames)
     imd = lib.isotxsMetadata
     chi = imd["chi"]
     flag = imd["fileWideChiFlag"]
@@ -428,8 +429,13 @@ def project_library(lib, srcs, nsrc, labels):
             continue
         nuc = lib[lab]
         cf = nuc.isotxsMetadata["chiFlag"]
+        who = {k: srcs.whose(nuc, k, li) for k in KINDS}
+        if li in dummies:
+            # data of a dummy nuclide that no source file holds were made by armi's addDummyNuclidesToLibrary: only that
+            # they exist is observed (the placeholder's content is the function's own business)
+            who = {k: (DUMMY_N if k == "n" else DUMMY_PH) if v == -1 else v for k, v in who.items()}
         nucs.append({
-            "n": srcs.whose(nuc, "n", li), "g": srcs.whose(nuc, "g", li), "p": srcs.whose(nuc, "p", li),
+            "n": who["n"], "g": who["g"], "p": who["p"],
             "cf": int(bool(cf)) if cf in (None, 0, 1) else -1,
             "owner": 1 if nuc.container is lib else 0,
         })
@@ -467,7 +473,7 @@ class MacroWorld:
         ng, ngam = table["ng"], table["ngam"]
         absparts, kinds = table["absParts"], table["scatKinds"]
         nlib, plib = _new_lib(), _new_lib()
-        iso_file_metadata(nlib.isotxsMetadata, ng, 1, None, "ISOTXS")
+        iso_file_metadata(nlib.isotxsMetadata, ng, 1, None, "ISOTXS", max_up=ng - 1)
         nlib.neutronEnergyUpperBounds = np.array([2.0 ** (ng - g) for g in range(ng)])
         nlib.neutronVelocity = np.array([1024.0 * (ng - g) for g in range(ng)])
         md = plib.pmatrxMetadata
